@@ -375,7 +375,14 @@ def impl_confusion(c):
 
 
 def model_line(c):
-    if c["op"] in ("kidtype", "jwe_allow", "callable", "jwe_keyops"):
+    if c["op"] == "jwe_keyops":
+        line = {"op": "jwe_keyops", "alg": c["alg"]}
+        if "use" in c["opts"]:
+            line["use"] = c["opts"]["use"]
+        if "key_ops" in c["opts"]:
+            line["key_ops"] = c["opts"]["key_ops"]
+        return line
+    if c["op"] in ("kidtype", "jwe_allow", "callable"):
         return None
     if c["op"] == "confusion":
         return {"op": "oct_import", "raw": c["raw"]}
@@ -390,6 +397,8 @@ def model_line(c):
 
 
 def project(c, out):
+    if c["op"] == "jwe_keyops":
+        return {side: ("ok" if out[side] == "ok" else "refused") for side in ("encrypt", "decrypt")}
     if c["op"] == "confusion":
         return {"accepted": out["accepted"]}
     if "ok" in out:
